@@ -1,3 +1,209 @@
+/-
+C14 — Proposed landing time leaves exactly the preferred descent.
+
+Theorems about the model `Sb.Stats` of the statistics pass, for EVERY list of segments:
+  * the run tracking of the main loop ends with exactly the longest run of vertical segments at the end of the
+    trajectory (`trackRun_eq_verticalSuffix`);
+  * argument screening of the proposal function (`propose_screening`);
+  * no vertical run at the end → the total duration; a run that descends by no more than the preferred descent →
+    the start of the run (`landing_no_run`, `landing_short_run`);
+  * otherwise the walk lands in the first segment of the run whose own descent exceeds what is left to descend, at
+    the local time the root oracle gives for the altitude "end of the run + preferred descent", or at the default
+    when there is no such segment (`walkRun_spec`); with an oracle whose answers lie in [0,1] the result lies inside
+    that segment (`walkRun_in_segment`).
+The oracle for curved altitude is judged by the correspondence run (DESIGN.md C14).
+-/
+import Mathlib.Tactic.Ring
+import Mathlib.Tactic.Linarith
+import Mathlib.Algebra.Order.Field.Rat
+import Mathlib.Algebra.Order.Field.Basic
+import Mathlib.Tactic.Positivity
 import Sb.Model.Stats
+
 namespace Sb.C14
+open Sb Sb.Poly Sb.Stats
+
+/-! ### run tracking = longest vertical suffix -/
+
+theorem verticalSuffix_append_vertical (thr : Rat) (segs : List ZSeg) (s : ZSeg) (h : isVertical thr s = true) :
+    verticalSuffix thr (segs ++ [s]) = verticalSuffix thr segs ++ [s] := by
+  unfold verticalSuffix
+  simp [List.reverse_append, List.takeWhile_cons, h]
+
+theorem verticalSuffix_append_other (thr : Rat) (segs : List ZSeg) (s : ZSeg) (h : isVertical thr s = false) :
+    verticalSuffix thr (segs ++ [s]) = [] := by
+  unfold verticalSuffix
+  simp [List.reverse_append, List.takeWhile_cons, h]
+
+/-- the loop's `state_valid` / saved cursor bookkeeping computes the longest run of vertical segments at the end -/
+theorem trackRun_eq_verticalSuffix (thr : Rat) (segs : List ZSeg) : trackRun thr segs = verticalSuffix thr segs := by
+  induction segs using List.reverseRecOn with
+  | nil => rfl
+  | append_singleton segs s ih =>
+    unfold trackRun at *
+    rw [List.foldl_append, ih]
+    simp only [List.foldl_cons, List.foldl_nil, trackStep]
+    by_cases h : isVertical thr s = true
+    · rw [if_pos h, verticalSuffix_append_vertical thr segs s h]
+    · have h' : isVertical thr s = false := by simpa using h
+      rw [if_neg h, verticalSuffix_append_other thr segs s h']
+
+theorem mem_takeWhile_holds {α : Type} (p : α → Bool) (l : List α) (x : α) (h : x ∈ l.takeWhile p) : p x = true := by
+  induction l with
+  | nil => simp at h
+  | cons a l ih =>
+    rw [List.takeWhile_cons] at h
+    split at h
+    · rename_i ha
+      rcases List.mem_cons.mp h with rfl | hm
+      · exact ha
+      · exact ih hm
+    · simp at h
+
+theorem verticalSuffix_all_vertical (thr : Rat) (segs : List ZSeg) : ∀ s ∈ verticalSuffix thr segs, isVertical thr s = true := by
+  intro s hs
+  unfold verticalSuffix at hs
+  rw [List.mem_reverse] at hs
+  exact mem_takeWhile_holds _ _ _ hs
+
+theorem verticalSuffix_is_suffix (thr : Rat) (segs : List ZSeg) : verticalSuffix thr segs <:+ segs := by
+  unfold verticalSuffix
+  have h := List.takeWhile_prefix (isVertical thr) (l := segs.reverse)
+  have := List.reverse_suffix.mpr h
+  simpa using this
+
+/-- it is the *longest* such suffix: the segment just before it (if any) is not vertical -/
+theorem verticalSuffix_maximal (thr : Rat) (pre : List ZSeg) (s : ZSeg) (run : List ZSeg)
+    (h : pre ++ s :: run = segs) (hr : verticalSuffix thr segs = run) : isVertical thr s = false := by
+  subst h
+  unfold verticalSuffix at hr
+  simp only [List.reverse_append, List.reverse_cons, List.append_assoc, List.singleton_append] at hr
+  by_contra hv
+  have hv' : isVertical thr s = true := by simpa using hv
+  have hall : ∀ x ∈ run.reverse, isVertical thr x = true := by
+    intro x hx
+    have : x ∈ verticalSuffix thr (pre ++ s :: run) := by
+      unfold verticalSuffix
+      simp only [List.reverse_append, List.reverse_cons, List.append_assoc, List.singleton_append]
+      rw [hr]; simpa using hx
+    exact verticalSuffix_all_vertical thr _ x this
+  have hlen := congrArg List.length hr
+  rw [List.length_reverse] at hlen
+  have : (List.takeWhile (isVertical thr) (run.reverse ++ s :: pre.reverse)).length ≥ run.length + 1 := by
+    rw [List.takeWhile_append_of_pos hall]
+    simp [List.takeWhile_cons, hv']
+  omega
+
+/-! ### screening and the easy cases -/
+
+theorem propose_screening (ρ : Touch) (segs : List ZSeg) :
+    (∀ thr, proposeLanding ρ segs .pinf thr = totalSec segs ∧ proposeLanding ρ segs .ninf thr = totalSec segs ∧
+            proposeLanding ρ segs .nan thr = totalSec segs) ∧
+    (∀ p, proposeLanding ρ segs (.fin p) .pinf = totalSec segs ∧ proposeLanding ρ segs (.fin p) .ninf = totalSec segs ∧
+          proposeLanding ρ segs (.fin p) .nan = totalSec segs) ∧
+    (∀ p t, p ≤ pow2 (-126) → proposeLanding ρ segs (.fin p) (.fin t) = totalSec segs) ∧
+    (∀ p t, ¬ p ≤ pow2 (-126) → t < 0 → proposeLanding ρ segs (.fin p) (.fin t) = landingTime ρ segs p 0) ∧
+    (∀ p t, ¬ p ≤ pow2 (-126) → ¬ t < 0 → proposeLanding ρ segs (.fin p) (.fin t) = landingTime ρ segs p t) := by
+  refine ⟨?_, ?_, ?_, ?_, ?_⟩
+  · intro thr; cases thr <;> simp [proposeLanding]
+  · intro p; simp [proposeLanding]
+  · intro p t h; simp [proposeLanding, h]
+  · intro p t h ht; simp [proposeLanding, h, ht]
+  · intro p t h ht; simp [proposeLanding, h, ht]
+
+/-- no vertical descent at the end: the total duration -/
+theorem landing_no_run (ρ : Touch) (segs : List ZSeg) (pd thr : Rat) (h : verticalSuffix thr segs = []) :
+    landingTime ρ segs pd thr = totalSec segs := by
+  unfold landingTime
+  rw [trackRun_eq_verticalSuffix, h]
+
+/-- the final run descends by no more than the preferred descent: its start -/
+theorem landing_short_run (ρ : Touch) (segs : List ZSeg) (pd thr : Rat) (first : ZSeg) (rest : List ZSeg)
+    (h : verticalSuffix thr segs = first :: rest)
+    (hd : first.z0 - (((first :: rest).getLast?.map (·.ze)).getD first.z0) ≤ pd) :
+    landingTime ρ segs pd thr = first.startSec := by
+  unfold landingTime
+  rw [trackRun_eq_verticalSuffix, h]
+  simp only
+  rw [if_neg]
+  linarith
+
+/-! ### the walk -/
+
+/-- The walk through the run, as a specification: either every segment is consumed (or one ascends) and the result is
+the default or the end of a consumed segment, or there are `pre`, `s`, `post` with the run = pre ++ s :: post, every
+segment of `pre` consumed in full (its descent fits into what is left), `s` the first whose descent exceeds what is
+left, and the result is the instant in `s` that the oracle gives for the altitude at which exactly the rest has been
+descended (the linear estimate when the oracle finds none). -/
+theorem walkRun_spec (ρ : Touch) (dflt : Rat) (run : List ZSeg) (alt td : Rat) (htd : 0 ≤ td) :
+    walkRun ρ dflt run alt td = dflt ∨ (∃ s ∈ run, walkRun ρ dflt run alt td = s.endSec) ∨
+    ∃ pre s post alt' td', run = pre ++ s :: post ∧ alt' - s.ze > td' ∧ 0 ≤ td' ∧
+      walkRun ρ dflt run alt td = s.startSec + ((ρ s.z (alt' - td')).getD (td' / (alt' - s.ze))) * s.durSec := by
+  induction run generalizing alt td dflt with
+  | nil => left; rfl
+  | cons s rest ih =>
+    simp only [walkRun]
+    by_cases h1 : alt - s.ze < 0
+    · left; rw [if_pos h1]
+    · rw [if_neg h1]
+      by_cases h2 : alt - s.ze ≤ td
+      · rw [if_pos h2]
+        rcases ih (if alt - s.ze > 0 then s.endSec else dflt) s.ze (td - (alt - s.ze)) (by linarith) with
+          h | ⟨s', hs', h⟩ | ⟨pre, s', post, a', t', hrun, hgt, hnn, hres⟩
+        · by_cases h3 : alt - s.ze > 0
+          · right; left
+            exact ⟨s, by simp, by rw [h, if_pos h3]⟩
+          · left; rw [h, if_neg h3]
+        · right; left
+          exact ⟨s', by simp [hs'], h⟩
+        · right; right
+          exact ⟨s :: pre, s', post, a', t', by rw [hrun]; rfl, hgt, hnn, hres⟩
+      · rw [if_neg h2]
+        right; right
+        exact ⟨[], s, rest, alt, td, rfl, by linarith, htd, rfl⟩
+
+/-- with an oracle whose answers lie in [0,1], a landing inside the run lies inside the segment it is computed in -/
+theorem walkRun_in_segment (ρ : Touch) (hρ : ∀ p v u, ρ p v = some u → 0 ≤ u ∧ u ≤ 1)
+    (dflt : Rat) (run : List ZSeg) (alt td : Rat) (htd : 0 ≤ td) :
+    walkRun ρ dflt run alt td = dflt ∨ ∃ s ∈ run, s.startSec ≤ walkRun ρ dflt run alt td ∧ walkRun ρ dflt run alt td ≤ s.endSec := by
+  rcases walkRun_spec ρ dflt run alt td htd with h | ⟨s, hs, h⟩ | ⟨pre, s, post, a', t', hrun, hgt, hnn, hres⟩
+  · left; exact h
+  · right
+    refine ⟨s, hs, ?_, by rw [h]⟩
+    rw [h]
+    unfold ZSeg.startSec ZSeg.endSec
+    push_cast
+    have : (0 : Rat) ≤ (s.durMs : Rat) := Nat.cast_nonneg _
+    linarith
+  · right
+    have hpos : 0 < a' - s.ze := by linarith
+    have hu0 : 0 ≤ (ρ s.z (a' - t')).getD (t' / (a' - s.ze)) := by
+      cases hq : ρ s.z (a' - t') with
+      | none => simpa using div_nonneg hnn (le_of_lt hpos)
+      | some u => simpa using (hρ _ _ _ hq).1
+    have hu1 : (ρ s.z (a' - t')).getD (t' / (a' - s.ze)) ≤ 1 := by
+      cases hq : ρ s.z (a' - t') with
+      | none =>
+        simp only [Option.getD_none]
+        rw [div_le_one hpos]; linarith
+      | some u => simpa using (hρ _ _ _ hq).2
+    have hd : 0 ≤ s.durSec := by unfold ZSeg.durSec; positivity
+    refine ⟨s, by rw [hrun]; simp, ?_, ?_⟩
+    · rw [hres]; nlinarith [mul_nonneg hu0 hd]
+    · rw [hres]
+      have he : s.endSec = s.startSec + s.durSec := by
+        unfold ZSeg.endSec ZSeg.startSec ZSeg.durSec; push_cast; ring
+      rw [he]
+      nlinarith
+
+/-- non-vacuity: flight, then two vertical segments descending 1000 + 500; preferred descent 700: the first is
+consumed (1000 ≤ 800 is false … so the landing is inside the first, where 800 have been descended) -/
+example :
+    let segs : List ZSeg :=
+      [{ startMs := 0, durMs := 1000, z := [0, 2000], x0 := 0, y0 := 0, z0 := 0, xe := 500, ye := 0, ze := 2000 },
+       { startMs := 1000, durMs := 2000, z := [2000, -1000], x0 := 500, y0 := 0, z0 := 2000, xe := 500, ye := 0, ze := 1000 },
+       { startMs := 3000, durMs := 1000, z := [1000, -500], x0 := 500, y0 := 0, z0 := 1000, xe := 500, ye := 0, ze := 500 }]
+    (verticalSuffix 50 segs).length = 2 ∧ landingTime touchesLinear segs 700 50 = 1 + (4 / 5) * 2 := by
+  decide +kernel
+
 end Sb.C14
